@@ -376,25 +376,47 @@ float32_t igris_atof32(const char *str, char **pend)
 
     char *end;
     unsigned int u = igris_atou32(str, 10, &end);
+    double ret = (double)u;
 
     str = end;
     if (*str == '.')
     {
-        int64_t d = igris_atou64(++str, 10, &end);
-        if (pend)
-            *pend = end;
-
-        float ret = (float)u + (float)((double)d /
-                                       (double)local_pow(10, (int)(end - str)));
-        return minus ? -ret : ret;
+        uint64_t d = igris_atou64(++str, 10, &end);
+        ret += (double)d / (double)local_pow(10, (int)(end - str));
+        str = end;
     }
 
-    else
+    if (*str == 'e' || *str == 'E')
     {
-        if (pend)
-            *pend = end;
-        return minus ? -(float)u : (float)u;
+        const char *eptr = str + 1;
+        uint8_t eminus = 0;
+
+        if (*eptr == '+')
+        {
+            eptr++;
+        }
+        else if (*eptr == '-')
+        {
+            eminus = 1;
+            eptr++;
+        }
+
+        // an exponent needs at least one digit, otherwise the number ends
+        // before the 'e'
+        if (igris_isdigit(*eptr))
+        {
+            unsigned int e = igris_atou32(eptr, 10, &end);
+            if (e > 400) // beyond the range of double in either direction
+                e = 400;
+            while (e--)
+                ret = eminus ? ret / 10.0 : ret * 10.0;
+        }
     }
+
+    if (pend)
+        *pend = end;
+
+    return minus ? -(float)ret : (float)ret;
 }
 
 #ifndef WITHOUT_FLOAT64
